@@ -151,6 +151,41 @@ where
             _ => return fail(("json-roundtrip:keypair".into(), "key pair does not survive serde_json".into())),
         }
     }
+    // the library's own file encoder (KeyPair::write_keypair_to_file): the file has to hold exactly this key pair,
+    // whatever the path held before: something longer, the previous key pair of this thread, this key pair
+    if let (Some(s), true) = (&kp_json, idx % 4 == 0) {
+        thread_local! {
+            static PREVIOUS: std::cell::RefCell<Option<String>> = std::cell::RefCell::new(None);
+        }
+        let dir = format!("{}/.build/tmp", verif_dir());
+        let dir = if std::fs::create_dir_all(&dir).is_ok() { dir } else { std::env::temp_dir().to_string_lossy().into_owned() };
+        let path = format!("{}/zkverif-keypair-{}-{}.json", dir, std::process::id(), idx);
+        let previous = PREVIOUS.with(|p| p.borrow().clone());
+        let mut steps: Vec<(&str, String)> = vec![("over a longer file", s.clone())];
+        if let Some(pv) = &previous {
+            steps.push(("the previous key pair of this thread into the same path", pv.clone()));
+            steps.push(("this key pair again", s.clone()));
+        }
+        let expected = |js: &str| serde_json::from_str::<Value>(js).unwrap();
+        let _ = std::fs::write(&path, format!("{}{}", serde_json::to_string_pretty(&expected(s)).unwrap(), "#".repeat(37)));
+        for (what, js) in steps {
+            let k: KeyPair<CL03<CS>> = match serde_json::from_str(&js) {
+                Ok(k) => k,
+                Err(_) => break,
+            };
+            rep.eval(ck, 1);
+            let wrote = catch(|| k.write_keypair_to_file(Some(path.clone())));
+            let back = std::fs::read_to_string(&path).ok().and_then(|t| serde_json::from_str::<Value>(&t).ok());
+            if wrote.is_err() || back != Some(expected(&js)) {
+                let len = std::fs::metadata(&path).map(|m| m.len()).unwrap_or(0);
+                let _ = std::fs::remove_file(&path);
+                return fail(("keypair-file".into(), format!("write_keypair_to_file ({}): the file ({} octets) does not read back as the key pair that was written", what, len)));
+            }
+            rep.class("keypair-file-written-and-read-back");
+        }
+        let _ = std::fs::remove_file(&path);
+        PREVIOUS.with(|p| *p.borrow_mut() = Some(s.clone()));
+    }
     // a signature and a commitment made with this key: exponent sizes and codecs
     let m = CL03Message::new(Integer::from(42));
     let sig = Signature::<CL03<CS>>::sign(&pk, &sk, &bases, &m);
@@ -372,7 +407,7 @@ pub fn run(ctx: &Ctx, rep: &Report) -> Meta {
     Meta {
         rule: "fresh KeyPair::<CL03<CL1024>>::generate() keys (128 quick / 640 thorough; one CL2048 key in thorough), keys assembled from pre-computed safe primes for CL1024 / CL2048 / CL3072, Bases::generate (1..8, and every count 9..=70 quick / 9..=200 thorough), commitment keys with as many bases over the issuer modulus, and over an own modulus (factors through hook H2, 1..5 and 17 / 18 / 19 bases); \
                oracle (own Miller-Rabin with 40 fixed bases + GMP, own Jacobi symbol and gcd): N = p q, p != q, p, q, (p-1)/2, (q-1)/2 prime, |p| = |q| = SECPARAM + 1 bits; b, c, a_i, h, g_i in (1, N), coprime to N, squares modulo p and q, pairwise distinct; h generates QR_N; \
-               byte round trips of pk, sk, signature and JSON round trips of pk, sk, key pair, commitment key, bases, signature (read back with from_str, from_value, from_reader, from_slice); commitment randomness of exactly ln bits; random_bits(n) of exactly n bits, rand_int(a, b) in [a, b] reaching both ends on tiny ranges, random_number(n) < n, random_prime(n) prime of n bits, random_qr a residue; \
+               byte round trips of pk, sk, signature and JSON round trips of pk, sk, key pair, commitment key, bases, signature (read back with from_str, from_value, from_reader, from_slice); every fourth generated key pair written with write_keypair_to_file over a longer file, then the thread's previous key pair and this one again into the same path, the file read back each time; commitment randomness of exactly ln bits; random_bits(n) of exactly n bits, rand_int(a, b) in [a, b] reaching both ends on tiny ranges, random_number(n) < n, random_prime(n) prime of n bits, random_qr a residue; \
                non-trivial = every generated key / parameter set / random-helper case; evaluations = judgements"
             .into(),
         assumptions: vec!["primality is probabilistic on both sides (error far below 2^-60)".into(), "CL2048 / CL3072 generate() is sampled at most once (cost: minutes)".into()],
